@@ -101,6 +101,13 @@ def generic(mod, pid, args, seed, t0):
     else:
       per_fn, canaries, wall, ex = run.verify_theory(T, repo, timeout_s=tmo)
   except (ContractMisfit, Unsupported) as e:
+    return proof_unavailable(pid, repo, args, seed, e)
+  except (AttributeError, TypeError, KeyError, IndexError, NotImplementedError, z3types_error()) as e:
+    # the VC generator itself tripped over a construct it does not model (an engine limitation, not a verdict):
+    # same treatment as an unsupported construct -- the native search still runs
+    traceback.print_exc()
+    return proof_unavailable(pid, repo, args, seed, Unsupported('engine error %s: %s' % (type(e).__name__, e)))
+  except _Never as e:
     # The code under contract changed shape (new loop without invariant, construct outside the
     # subset, ...): no obligation can be generated, so nothing is proved or refuted.  The contract
     # is still executable: run the native witness search on the real code; a failing input is a
@@ -250,6 +257,15 @@ def generic(mod, pid, args, seed, t0):
   print('%s: %d obligations, %d discharged, %d function(s), exit %d, %.1fs' % (
       pid, len(obls), ev['coverage']['discharged'], len(fns), exit_code, time.time() - t0))
   return exit_code
+
+
+class _Never(Exception):
+  pass
+
+
+def z3types_error():
+  import z3
+  return z3.Z3Exception
 
 
 class _Merged:
